@@ -196,6 +196,35 @@ func (x *Exec) bvInt(v uint64) *Term { return x.ts.BV(v, 64) }
 // ---------------------------------------------------------------- math/bits
 
 func registerBits() {
+	// cmp.Equal(x, y) on two pointers to (or values of) a named type with an Equal(T) bool method: go-cmp calls
+	// that method (the only use in the library: rlwe.PlaintextMetaData.Equal on *rlwe.Scale)
+	intrinsics["github.com/google/go-cmp/cmp.Equal"] = func(x *Exec, fn *ssa.Function, a []Value) Value {
+		ia, oka := a[0].(Iface)
+		ib, okb := a[1].(Iface)
+		if !oka || !okb || ia.T == nil || ib.T == nil || !types.Identical(ia.T, ib.T) {
+			panic(x.errf("cmp.Equal: unsupported operands %T %T", a[0], a[1]))
+		}
+		t := ia.T
+		va, vb := ia.V, ib.V
+		if pt, ok := t.Underlying().(*types.Pointer); ok {
+			pa, pb := va.(Ptr), vb.(Ptr)
+			if pa.Obj == nil || pb.Obj == nil {
+				return x.ts.Bool(pa.Obj == nil && pb.Obj == nil)
+			}
+			t = pt.Elem()
+			va, vb = x.Load(pa, t), x.Load(pb, t)
+		}
+		ms := x.eng.Prog.MethodSets.MethodSet(t)
+		for j := 0; j < ms.Len(); j++ {
+			if ms.At(j).Obj().Name() == "Equal" {
+				f := x.eng.Prog.MethodValue(ms.At(j))
+				if f != nil && f.Signature.Params().Len() == 1 && types.Identical(f.Signature.Params().At(0).Type(), t) {
+					return x.call(f, []Value{va, vb}, nil)
+				}
+			}
+		}
+		panic(x.errf("cmp.Equal: type %s has no Equal(T) method (reflection-based comparison is not modelled)", t))
+	}
 	intrinsics["math/bits.Mul64"] = func(x *Exec, fn *ssa.Function, a []Value) Value {
 		hi, lo := x.ts.Mul64(x.term(a[0]), x.term(a[1]))
 		return Tuple{hi, lo}
